@@ -663,4 +663,26 @@ theorem integrate_split_time (g : Geom) (l : List (List K × K × K)) (p : List 
 example : sumCharges (Geom.uniform [2] 1) ([] ++ [(([1, 2] : List Rat), (1/2 : Rat), (1 : Rat)), ([1, 2], 1/4, 1)]) = [3/4, 3/2] := by
   decide +kernel
 
+/-- **Homogeneity of an exposure in the incident power**: making every integrated power image `c` times brighter makes
+the accumulated image `c` times brighter, for every detector geometry (any subsampling), every list of integrations. -/
+theorem exposure_scales_with_power (g : Geom) (c : K) (l : List (List K × K × K)) :
+    sumCharges g (l.map fun x => (x.1.map (c * ·), x.2)) = (sumCharges g l).map (c * ·) := by
+  have key : ∀ (l : List (List K × K × K)) (a : List K),
+      (l.map fun x => (x.1.map (c * ·), x.2)).foldl
+        (fun a (x : List K × K × K) => vadd a (charge (binNDs g.ss g.dims x.1) x.2.1 x.2.2)) (a.map (c * ·))
+      = (l.foldl (fun a (x : List K × K × K) => vadd a (charge (binNDs g.ss g.dims x.1) x.2.1 x.2.2)) a).map (c * ·) := by
+    intro l
+    induction l with
+    | nil => intro a; rfl
+    | cons x xs ih =>
+      intro a
+      simp only [List.map_cons, List.foldl_cons]
+      rw [binNDs_smul, charge_smul_power, vadd_smul, ih]
+  have hz : (vzero g.npix : List K) = (vzero g.npix : List K).map (c * ·) := by simp [vzero]
+  unfold sumCharges
+  rw [hz, key, ← hz]
+
+example : sumCharges (Geom.uniform [1] 2) ([(([1, 2] : List Rat), (1/2 : Rat), (1 : Rat))].map fun x => (x.1.map ((3 : Rat) * ·), x.2))
+    = [9/2] := by decide +kernel
+
 end HcipyVerif.Detector
